@@ -1,0 +1,72 @@
+//go:build verif
+
+// Verification hooks (build tag `verif` only). Add-only; no behaviour change.
+
+package core
+
+import (
+	"context"
+	"net"
+
+	"github.com/AliceO2Group/Control/common/event/topic"
+	pb "github.com/AliceO2Group/Control/common/protos"
+	"github.com/AliceO2Group/Control/core/environment"
+	"github.com/AliceO2Group/Control/core/integration"
+	"github.com/AliceO2Group/Control/core/task"
+	"github.com/AliceO2Group/Control/core/the"
+	"github.com/sirupsen/logrus"
+	"github.com/spf13/viper"
+	"google.golang.org/grpc"
+)
+
+// VerifHandles is what Run keeps in local variables.
+type VerifHandles struct {
+	Taskman      *task.Manager
+	Environments *environment.Manager
+	Server       *grpc.Server
+	Cancel       context.CancelFunc
+	// ServeErr receives the result of Server.Serve(lis) once.
+	ServeErr <-chan error
+}
+
+// RunForVerif performs the steps of Run in the same order — newGlobalState,
+// signals, setLimits, repo manager, NewServer, taskman.Start, CoreStart event,
+// plugin InitAll, Serve — with two differences: the gRPC server is served on
+// the given listener in a goroutine (Run blocks on it and listens on
+// controlPort itself), and runMetrics (fixed HTTP port) is skipped.
+// NewConfig (or an equivalent viper setup) must have run before.
+func RunForVerif(lis net.Listener) (*VerifHandles, error) {
+	if viper.GetBool("verbose") {
+		logrus.SetLevel(logrus.DebugLevel)
+	}
+	if viper.GetBool("veryVerbose") {
+		logrus.SetLevel(logrus.TraceLevel)
+	}
+	ctx, cancel := context.WithCancel(context.Background())
+	state, err := newGlobalState(cancel)
+	if err != nil {
+		cancel()
+		return nil, err
+	}
+	signals(state)
+	if err = setLimits(); err != nil {
+		cancel()
+		return nil, err
+	}
+	_ = the.RepoManager()
+	s := NewServer(state)
+	state.taskman.Start(ctx)
+	the.EventWriterWithTopic(topic.Core).WriteEvent(&pb.Ev_MetaEvent_CoreStart{
+		FrameworkId: state.taskman.GetFrameworkID(),
+	})
+	integration.PluginsInstance().InitAll(state.taskman.GetFrameworkID())
+	serveErr := make(chan error, 1)
+	go func() { serveErr <- s.Serve(lis) }()
+	return &VerifHandles{
+		Taskman:      state.taskman,
+		Environments: state.environments,
+		Server:       s,
+		Cancel:       cancel,
+		ServeErr:     serveErr,
+	}, nil
+}
